@@ -50,6 +50,34 @@ def gen_cacheable_logical(rng, depth):
             ["op", "<=", ["fn", "length", ["self"]], ["fn", "count", ["root", False, ["sel", "wild"]]]],
             ["op", "==", "key", ["lit", 0]],
         ]
+        # sub-queries that themselves contain a filter: the nested filter may read $, _, @ or # whatever the outer
+        # sub-query is rooted at (a current-node sub-query stays per-node even when its nested filter is constant)
+        def inner():
+            return rng.choice([
+                ["op", "==", ["root", False, ["sel", ["name", "a"]]], ["lit", 1]],
+                ["op", "==", ["ctx", ["sel", ["name", "t"]]], ["lit", True]],
+                ["op", "==", ["self"], ["ctx", ["sel", ["name", "k"]]]],
+                ["op", ">", ["self"], ["root", False, ["sel", ["name", "a"]]]],
+                ["root", False, ["sel", ["name", "c"]]],
+                ["ctx", ["sel", ["name", "names"]]],
+                ["op", "in", "key", ["ctx", ["sel", ["name", "names"]]]],
+                ["self", ["sel", ["name", "a"]]],
+            ])
+
+        def nested():
+            head = rng.choice([["self"], ["self", ["sel", ["name", rng.choice(["a", "b", "c"])]]], ["root", False],
+                               ["root", False, ["sel", ["name", rng.choice(["a", "b", "c"])]]], ["ctx", ["sel", ["name", rng.choice(["names", "o"])]]]])
+            q = head + [["list", ["filter", inner()]]]
+            r2 = rng.random()
+            if r2 < 0.4:
+                return q
+            if r2 < 0.6:
+                return ["not", q]
+            if r2 < 0.8:
+                return ["op", rng.choice(["==", ">=", "<"]), ["fn", "count", q], ["lit", rng.choice([0, 1, 2])]]
+            return ["op", "==", ["fn", "value", q], ["lit", rng.choice([1, True, "a"])]]
+        if rng.random() < 0.3:
+            return nested()
         return rng.choice(nonvol if rng.random() < 0.5 else vol)
     if r < 0.45:
         return ["not", gen_cacheable_logical(rng, depth - 1)]
